@@ -128,6 +128,49 @@ Proof.
 Qed.
 Print Assumptions C12_head_hypotheses_nonvacuous.
 
+(* The real bind path is part of the model: [Bind4 i lease o] transcribes IPoE handleAck (DHCPv4 ACK: State := bound,
+   IPv4 := the allocator's answer or the address being renewed, LeaseTime, BoundAt := now, dataplane binding,
+   checkpointSession).  It is an operation of every history theorem in this file (released-stay-gone,
+   established-has-image, reserved-before-alloc: a session's addresses may now GROW after bring-up, the invariant
+   "store images hold a subset of the in-memory addresses" replaces equality).  What the bind itself guarantees:
+   unless it is a no-op (unknown session, PPPoE, pool exhausted) the in-memory image is bound with that lease and an
+   IPv4 address and carries a fresh stamp whose checkpoint Put is pending with exactly that image — so "established by
+   the real bind path" enters [C12_established_has_image] through [C12_window_closed_by_done]. *)
+Theorem C12_bind_issues_checkpoint :
+  forall c s i l o s' out,
+  inv1 s -> do_bind4 c s i l o = Some (s', out) ->
+  s' = s \/
+  exists r', aget i (live s') = Some r' /\ s_stamp r' = Some (tick s) /\ s_bound r' = true /\ s_l4 r' = l /\
+             is_some (s_v4 r') = true /\ aget (tick s) (pend s') = Some r'.
+Proof. exact bind4_checkpoints. Qed.
+Print Assumptions C12_bind_issues_checkpoint.
+
+(* non-vacuity, end to end: bring-up without IPv4, bind through handleAck, its checkpoint completes, stop, restart:
+   restored bound with the address, which is reserved; a renew with a longer lease keeps a session alive that the
+   first lease would have expired *)
+Definition unbound (i : N) : newspec :=
+  {| n_id := i; n_bound := false; n_rel4 := false; n_appr := true; n_crea := true; n_v6b := false; n_a4 := ANone;
+     n_a6 := ANone; n_apd := ANone; n_l4 := 0; n_b4 := None; n_l6 := 0; n_b6 := None |}.
+Example C12_bind_nonvacuous :
+  (exists s r, run (repaired IPoE 4 4 2) init
+       [New (unbound 0) None None None; Bind4 0 3600 (Some 2); Done 0 false; Crash false None 100%Z] = Some s /\
+     aget 0 (live s) = Some r /\ s_bound r = true /\ s_v4 r = Some 2 /\ aget (code 0 2) (leases s) = Some 0 /\
+     In (0, 0) (completed s)) /\
+  (exists s, run (repaired IPoE 4 4 2) init
+       [New (unbound 0) None None None; Bind4 0 600 (Some 2); Done 0 false; Crash false None 1000%Z] = Some s /\
+     aget 0 (live s) = None) /\
+  (exists s r, run (repaired IPoE 4 4 2) init
+       [New (unbound 0) None None None; Bind4 0 600 (Some 2); Done 0 false; Bind4 0 3600 None; Done 1 false;
+        Crash false None 1000%Z] = Some s /\
+     aget 0 (live s) = Some r /\ s_l4 r = 3600).
+Proof.
+  split; [|split].
+  - eexists. eexists. split; [vm_compute; reflexivity|]. repeat split. left. reflexivity.
+  - eexists. split; [vm_compute; reflexivity|]. reflexivity.
+  - eexists. eexists. split; [vm_compute; reflexivity|]. split; reflexivity.
+Qed.
+Print Assumptions C12_bind_nonvacuous.
+
 (* Stop points inside a release.  [Rel i] is the completed release (in-memory part, then the checkpoint Delete has
    taken effect).  [RelStop i putdone p f now] is a stop in the middle: the in-memory part has run, the Delete has
    been issued but has not taken effect — it is at the Store or waits behind the write that is at the Store, which
